@@ -91,6 +91,51 @@ def seq_replay(w):
                     "observed": {"max difference to a fresh object": float(np.abs(res.pseudopressure - fresh.pseudopressure).max()), "extra attributes": sorted(set(vars(res)) - set(vars(fresh)))}, "required": "identical to a fresh object simulated with the current fluid"}
     except Exception:  # noqa: BLE001
         pass
+    # read-only queries leave the stored field alone: recovery calls (both modes) and the interpolator on reservoirs with
+    # every kind of attached fluid, including an ideal reservoir whose table does not reach down to zero pseudopressure
+    try:
+        import pandas as pd
+        flow = __import__("bluebonnet.flow", fromlist=["x"])
+        pvt = pd.read_csv("/repo/tests/data/pvt_gas.csv").rename(columns={"P": "pressure", "Z-Factor": "z-factor", "Cg": "compressibility", "Viscosity": "viscosity", "Density": "density"})
+        tgrid = np.linspace(0, 2.0, 40) ** 2
+        for label, mk in (("IdealReservoir, table cut to p >= 4000", lambda: flow.IdealReservoir(12, 4500.0, 8000.0, flow.FlowProperties(pvt[pvt["pressure"] >= 4000].reset_index(drop=True), 8000.0))),
+                          ("IdealReservoir, full table", lambda: flow.IdealReservoir(12, 1000.0, 8000.0, flow.FlowProperties(pvt, 8000.0))),
+                          ("SinglePhaseReservoir", lambda: flow.SinglePhaseReservoir(12, 1000.0, 8000.0, flow.FlowProperties(pvt, 8000.0)))):
+            res = mk()
+            res.simulate(tgrid)
+            field, times = np.array(res.pseudopressure, copy=True), np.array(res.time, copy=True)
+            for call in ("recovery_factor(density=True)", "recovery_factor()", "recovery_factor_interpolator()"):
+                eval("res." + call)
+                if not (np.array_equal(res.pseudopressure, field) and np.array_equal(res.time, times)):
+                    return {"reproduced": True, "input": {"object": label, "nx": 12, "time": "linspace(0,2,40)**2", "sequence": "simulate(t); " + call},
+                            "observed": {"max change of the stored field": float(np.abs(np.asarray(res.pseudopressure) - field).max())}, "required": "the stored times and field unchanged by a query"}
+    except Exception:  # noqa: BLE001
+        pass
+    # the interpolator follows the recovery calls made after the simulation: simulate; rf(); interp; rf(density=True); interp
+    try:
+        import pandas as pd
+        flow = __import__("bluebonnet.flow", fromlist=["x"])
+        pvt = pd.read_csv("/repo/tests/data/pvt_gas.csv").rename(columns={"P": "pressure", "Z-Factor": "z-factor", "Cg": "compressibility", "Viscosity": "viscosity", "Density": "density"})
+        tgrid = np.linspace(0, 2.0, 40) ** 2
+        q = np.array([0.05, 0.5, 1.7, 3.9])
+        for label, mk in (("SinglePhaseReservoir", lambda: flow.SinglePhaseReservoir(12, 1000.0, 8000.0, flow.FlowProperties(pvt, 8000.0))),
+                          ("IdealReservoir with a fluid", lambda: flow.IdealReservoir(12, 1000.0, 8000.0, flow.FlowProperties(pvt, 8000.0)))):
+            for seq in (("recovery_factor()", "recovery_factor_interpolator()", "recovery_factor(density=True)", "recovery_factor_interpolator()"),
+                        ("recovery_factor(density=True)", "recovery_factor_interpolator()", "recovery_factor()", "recovery_factor_interpolator()")):
+                a, b = mk(), mk()
+                a.simulate(tgrid.copy())
+                b.simulate(tgrid.copy())
+                out = None
+                for call in seq:
+                    out = eval("a." + call)
+                for call in (seq[0], seq[2]):      # the fresh object: only the recovery calls
+                    eval("b." + call)
+                ref = b.recovery_factor_interpolator()
+                if not np.allclose(out(q), ref(q), rtol=1e-12, atol=1e-14):
+                    return {"reproduced": True, "input": {"object": label, "nx": 12, "time": "linspace(0,2,40)**2", "sequence": ["simulate(t)"] + list(seq), "queries": q.tolist()},
+                            "observed": np.asarray(out(q), dtype=float).tolist(), "required": np.asarray(ref(q), dtype=float).tolist()}
+    except Exception:  # noqa: BLE001
+        pass
     r_ = rt.run(types.SimpleNamespace(tier="quick", seed=0))
     if r_["violations"]:
         v = r_["violations"][0]
